@@ -303,7 +303,15 @@ fn feed_fixed_block_size<T: Source, C: Fill>(
                 .lock()
                 .expect(panic_msg::MUTEX_LOCK_FAILED);
             let mut framebuf_and_ctx = (&mut numbuf.framebuf, &mut context);
-            let read_samples = src.read_samples(block_size, &mut framebuf_and_ctx)?;
+            let read_samples = match src.read_samples(block_size, &mut framebuf_and_ctx) {
+                Ok(n) => n,
+                Err(e) => {
+                    // workers must be released also when the source failed.
+                    drop(numbuf);
+                    parbuf.request_stop(workers);
+                    return Err(e);
+                }
+            };
             if read_samples == 0 {
                 break 'feed;
             }
@@ -366,7 +374,7 @@ pub fn encode_with_fixed_block_size<T: Source>(
         src.channels(),
         block_size,
     )?);
-    let parsink: Arc<ParSink<Frame>> = Arc::new(ParSink::new());
+    let parsink: Arc<ParSink<Result<Frame, VerifyError>>> = Arc::new(ParSink::new());
 
     let join_handles: Vec<_> = (0..worker_count)
         .map(|_n| {
@@ -389,27 +397,46 @@ pub fn encode_with_fixed_block_size<T: Source>(
                             ),
                         )
                     };
-                    encode_result.map_or_else(
-                        |e| {
-                            unreachable!("{}, err={:?}", panic_msg::ERROR_NOT_EXPECTED, e);
-                        },
-                        |mut frame| {
-                            parbuf.enqueue_refill(bufid);
+                    // The buffer is returned also when encoding failed (e.g. due to an
+                    // out-of-range sample); otherwise the feeder runs out of buffers.
+                    parbuf.enqueue_refill(bufid);
+                    let result = match encode_result {
+                        Ok(mut frame) => {
                             frame.precompute_bitstream();
-                            parsink.push(frame_number, frame);
-                        },
-                    );
+                            Ok(frame)
+                        }
+                        Err(EncodeError::Config(e)) => Err(e),
+                        Err(e @ EncodeError::Source(_)) => {
+                            unreachable!("{}, err={:?}", panic_msg::ERROR_NOT_EXPECTED, e);
+                        }
+                    };
+                    parsink.push(frame_number, result);
                 }
             })
         })
         .collect();
 
     let src_len_hint = src.len_hint();
-    let context = ParContext::new(Context::new(src.bits_per_sample(), src.channels()));
-    let (feed_stats, context) =
-        feed_fixed_block_size(src, block_size, worker_count, &parbuf, context)?;
+    let mut context = ParContext::new(Context::new(src.bits_per_sample(), src.channels()));
+    let feed_result = feed_fixed_block_size(src, block_size, worker_count, &parbuf, &mut context)
+        .map(|(stats, _)| stats);
+
+    // The helper threads are stopped and joined also when feeding failed, so that no
+    // thread outlives this function.
     let remaining_md5_blocks = context.request_stop();
     let context = context.finalize();
+    for h in join_handles {
+        h.join().expect(panic_msg::THREAD_JOIN_FAILED);
+    }
+
+    // Errors are reported in the order in which single-threaded encoding finds them: an
+    // invalid block precedes a read error that happened after it.
+    let mut frames = vec![];
+    destruct_arc(parsink).finalize(|f: Result<Frame, VerifyError>| frames.push(f));
+    for frame in frames {
+        stream.add_frame(frame?);
+    }
+    let feed_stats = feed_result?;
 
     info!(
         target: "flacenc::par_run_stat::jsonl",
@@ -423,12 +450,6 @@ pub fn encode_with_fixed_block_size<T: Source>(
     stream
         .stream_info_mut()
         .set_md5_digest(&context.md5_digest());
-
-    for h in join_handles {
-        h.join().expect(panic_msg::THREAD_JOIN_FAILED);
-    }
-
-    destruct_arc(parsink).finalize(|f: Frame| stream.add_frame(f));
 
     // A fixed-blocksize stream declares `min_block_size == max_block_size == block_size`
     // (the final, possibly shorter, block is excluded from the minimum; RFC 9639 sec. 8.2).
